@@ -31,7 +31,13 @@ pub const INFO: Info = Info {
            (thorough ..120) over the 22 residues with K/R/P/D enriched, random cleavage sets of 1-4 residues, \
            random restriction (often a member of the set or P), either terminus, semi, mc 0..3, random \
            bounds. Non-trivial = the protein has >= 2 residues and (non-specific or it contains a residue of \
-           the cleavage set). missed_cleavages stays < 255 (u8 overflow in `1 + mc`), ASCII only. \
+           the cleavage set). (d) many fragments: proteins of 254..258, 511..513, 600, 768, 770 (thorough: 250..262, 508..516, \
+           600, 700, 766..771, 1023..1025, 1280) cleavage fragments of 1-3 residues (C-terminal KR with and \
+           without a non-cleaving tail, N-terminal D) x mc 0..3 with min_len 1-2 so that every missed-cleavage \
+           peptide is kept (u8 wrap-around of fragment counts), 256 x 'AK', semi-enzymatic and non-specific \
+           on 256+ fragment proteins; proteins over 160 residues are judged against the proved model \
+           (spec_unique). missed_cleavages 254 and 255 on a tiny protein: 255 overflows `1 + mc` (u8) and \
+           panics in this (overflow-checked) build - modelled as panic; ASCII only. \
            fasta: records (accession, optional description, sequence) rendered in a random layout: line \
            width in {1,2,3,7,60,none}, LF or CRLF per line, blank / white-space-only lines anywhere \
            (also before the first header), leading/trailing spaces and tabs, '> acc', decoy tag as \
@@ -595,7 +601,85 @@ fn gen_fastadigest(rng: &mut Rng, tier: Tier, emit: &mut dyn FnMut(Case)) {
     }
 }
 
+/// proteins with very many cleavage fragments (u8 wrap-around of counts around 256/512/768)
+fn gen_many_fragments(rng: &mut Rng, tier: Tier, emit: &mut dyn FnMut(Case)) {
+    let counts: Vec<usize> = if tier == Tier::Quick {
+        vec![254, 255, 256, 257, 258, 511, 512, 513, 600, 768, 770]
+    } else {
+        (250..=262).chain(508..=516).chain([600, 700, 766, 767, 768, 769, 770, 771, 1023, 1024, 1025, 1280]).collect()
+    };
+    for &nfrag in &counts {
+        for mc in 0..=3u8 {
+            for variant in 0..3 {
+                // 0: C-terminal KR (fragments "x{0..2}[KR]"), protein ends in a cleavage residue (empty last site)
+                // 1: same plus a non-cleaving tail            2: N-terminal D (fragments "Dx{0..2}")
+                if tier == Tier::Quick && variant != (nfrag + mc as usize) % 3 {
+                    continue;
+                }
+                let mut seq = Vec::with_capacity(nfrag * 3 + 3);
+                for _ in 0..nfrag {
+                    let k = rng.below(3);
+                    if variant == 2 {
+                        seq.push(b'D');
+                    }
+                    for _ in 0..k {
+                        seq.push(*rng.pick(b"ACEGLSTV"));
+                    }
+                    if variant != 2 {
+                        seq.push(*rng.pick(b"KR"));
+                    }
+                }
+                if variant == 1 {
+                    seq.extend_from_slice(b"AA");
+                }
+                let mut b = if variant == 2 { shape("D", None, false) } else { shape("KR", None, true) };
+                b.mc = Some(mc);
+                b.min_len = Some(if rng.chance(1, 2) { 1 } else { 2 });
+                b.max_len = Some(50);
+                emit_digest(emit, &b, &seq, &["many-fragments"]);
+            }
+        }
+    }
+    // exactly 256 fragments "AK": every window of every size reads the same few strings
+    for mc in 0..=3u8 {
+        let seq: Vec<u8> = b"AK".iter().cycle().take(512).cloned().collect();
+        let mut b = shape("K", None, true);
+        b.mc = Some(mc);
+        emit_digest(emit, &b, &seq, &["many-fragments", "uniform-256"]);
+    }
+    // semi-enzymatic and non-specific on moderately long proteins (verdict against the proved model)
+    let reps = if tier == Tier::Quick { 2 } else { 12 };
+    for r in 0..reps {
+        let nfrag = 256 + r;
+        let mut seq = Vec::new();
+        for _ in 0..nfrag {
+            for _ in 0..rng.below(3) {
+                seq.push(*rng.pick(b"ACEGLSTV"));
+            }
+            seq.push(*rng.pick(b"KR"));
+        }
+        let mut b = shape("KR", Some(b'P'), true);
+        b.mc = Some(1 + (r % 2) as u8);
+        b.semi = Some(true);
+        b.min_len = Some(2);
+        b.max_len = Some(8);
+        emit_digest(emit, &b, &seq, &["many-fragments", "long-semi"]);
+        let mut b = shape("", None, true);
+        b.min_len = Some(5);
+        b.max_len = Some(6);
+        emit_digest(emit, &b, &seq[..seq.len().min(400)], &["long-nonspecific"]);
+    }
+    // missed_cleavages at the top of u8: 254 works, 255 overflows `1 + mc` (panic in this build)
+    for (mc, cl) in [(254u8, "K"), (255, "K"), (255, "$"), (255, "")] {
+        let mut b = shape(cl, None, true);
+        b.mc = Some(mc);
+        let c = Case::new(digest_request(&b, b"AKAKA")).tag("directed").tag("mc-u8-top").nontrivial(mc == 254);
+        emit(c);
+    }
+}
+
 pub fn gen(rng: &mut Rng, tier: Tier, emit: &mut dyn FnMut(Case)) {
+    gen_many_fragments(rng, tier, emit);
     gen_digest(rng, tier, emit);
     gen_fasta(rng, tier, emit);
     gen_fastadigest(rng, tier, emit);
